@@ -75,10 +75,12 @@ class Graph:
 
 
 class SymSeq:
-    """sequence of any length with one symbolic element"""
+    """sequence of any length with one symbolic element; `asc`: known to be in ascending order of its elements"""
 
-    def __init__(self, elem):
+    def __init__(self, elem, asc=False, what=""):
         self.elem = elem
+        self.asc = asc
+        self.what = what
 
 
 class AttrDict:
@@ -98,8 +100,9 @@ class SubSeq:
 
 
 class Pair:
-    def __init__(self, *items):
+    def __init__(self, *items, asc=False):
         self.items = list(items)
+        self.asc = asc          # items known to be in ascending order (sorted(edge))
 
 
 class Opaque:
@@ -126,6 +129,7 @@ class ShapeInterp:
         self.cg = repo.callgraph()
         self.depth = 0
         self.notes: list[str] = []
+        self.emissions: list[dict] = []     # every place where a graph-sized sequence is turned into text
 
     def run(self, fi: FuncInfo, args) -> Str:
         if self.depth > 8:
@@ -235,6 +239,9 @@ class ShapeInterp:
                     env[a] = cur
             return [env]
         if isinstance(it, (SymSeq, UnsortedItems)):  # star over one symbolic iteration
+            if isinstance(it, SymSeq) and accs:
+                self.emissions.append({"fi": fi, "node": st, "what": it.what, "asc": it.asc,
+                                       "pair_asc": getattr(it.elem, "asc", None) if isinstance(it.elem, Pair) and it.what == "edges" else None})
             elems = [it.elem] if isinstance(it, SymSeq) else [Pair(lit(s), Int(1)) for s in it.uni]
             deltas = {a: [] for a in accs}
             for el in elems:
@@ -391,7 +398,12 @@ class ShapeInterp:
             if isinstance(it, SymSeq):
                 if g.ifs:
                     self.notes.append(f"filter in comprehension at {fi.loc(e)} (shape unaffected: any length)")
-                return SymSeq(self.ev(fi, e.elt, self.bind(g.target, it.elem, env)))
+                el = self.ev(fi, e.elt, self.bind(g.target, it.elem, env))
+                # a comprehension keeps the order; it keeps *sortedness* only when it formats the elements (strings built from an ascending sequence)
+                out = SymSeq(el, asc=False, what=it.what)
+                if isinstance(el, Str):
+                    out.src = it          # remember what was formatted, for the emission record at join time
+                return out
             raise AnalysisError(f"shape interpreter: comprehension over {type(it).__name__} at {fi.loc(e)}")
         if isinstance(e, ast.Call):
             return self.call(fi, e, env)
@@ -434,10 +446,18 @@ class ShapeInterp:
                     a = args[0]
                     if isinstance(a, UnsortedItems):
                         return UnsortedItems(a.uni)       # sorted some other way: not the grammar's order for sure
+                    if isinstance(a, SymSeq):
+                        return SymSeq(a.elem, asc=False, what=a.what)
+                    if isinstance(a, Pair):
+                        return Pair(*a.items, asc=False)
                 a = args[0]
                 if isinstance(a, UnsortedItems):
                     return SortedItems(a.uni)
-                if isinstance(a, (SymSeq, Pair, SortedItems)):
+                if isinstance(a, SymSeq):
+                    return SymSeq(a.elem, asc=True, what=a.what)
+                if isinstance(a, Pair):
+                    return Pair(*a.items, asc=True)
+                if isinstance(a, SortedItems):
                     return a
                 if isinstance(a, tuple) and a[0] == "view":
                     return self.view(a[1], None)
@@ -446,6 +466,12 @@ class ShapeInterp:
                 a = args[0]
                 if f.id == "reversed" and isinstance(a, SortedItems):
                     return UnsortedItems(a.uni)
+                if f.id == "reversed" and isinstance(a, SymSeq):
+                    return SymSeq(a.elem, asc=False, what=a.what)
+                if f.id == "reversed" and isinstance(a, Pair):
+                    return Pair(*a.items[::-1], asc=False)
+                if f.id in ("list", "tuple") and isinstance(a, Pair):
+                    return Pair(*a.items, asc=False) if not a.asc else a
                 return a
             if f.id == "str" and args:
                 return self.tostr(args[0], fi, e)
@@ -488,6 +514,10 @@ class ShapeInterp:
             if attr == "join" and isinstance(recv, Str):
                 a = args[0]
                 if isinstance(a, SymSeq):
+                    src = getattr(a, "src", None)
+                    if src is not None:
+                        self.emissions.append({"fi": fi, "node": e, "what": src.what, "asc": src.asc,
+                                               "pair_asc": getattr(src.elem, "asc", None) if isinstance(src.elem, Pair) and src.what == "edges" else None})
                     el = self.tostr(a.elem, fi, e)
                     return Str([("star", el)]) if not recv.p else Str([("opt", el + Str([("star", recv + el)]))])
                 if isinstance(a, SubSeq):
@@ -509,13 +539,13 @@ class ShapeInterp:
 
     def view(self, attr, data):
         if attr == "edges":
-            return SymSeq(Pair(Int(0), Int(0)))          # labels are 0..n-1 after the final relabel
+            return SymSeq(Pair(Int(0), Int(0)), what="edges")          # labels are 0..n-1 after the final relabel
         if attr == "nodes":
             if data is None or (isinstance(data, ast.Constant) and data.value is False):
-                return SymSeq(Int(0))
+                return SymSeq(Int(0), what="nodes")
             if isinstance(data, ast.Constant) and data.value is True:
-                return SymSeq(Pair(Int(0), AttrDict()))
-            return SymSeq(Pair(Int(0), Int(self.value_lo)))
+                return SymSeq(Pair(Int(0), AttrDict()), what="nodes")
+            return SymSeq(Pair(Int(0), Int(self.value_lo)), what="nodes")
         raise AnalysisError(f"shape interpreter: graph view .{attr}")
 
 
